@@ -201,10 +201,28 @@ P("C13", "proof", "Lean 4 byte-level theorem (cut at the end of the stem) + mode
   theorems=["TP.C13.set_ext_bytes", "TP.C13.set_ext_cut_boundary", "TP.C13.set_ext_false", "TP.C13.set_ext_true_iff", "TP.C13.set_ext_total"],
   rule=NONTRIV + "(path, extension) pairs; non-trivial = file name followed by separators or `.`", design_ref="§5 C13")
 
-P("C14", "translation_validation", "UTF-8 family vs byte family transcripts + model differential",
-  "Every UTF-8 operation is run next to its byte twin on the same valid strings (transcripts must be identical, every "
-  "&str re-validated, no panic), and the byte family is tied to the model.",
-  TV_NOTE, rule="strings over {/ \\ . : a é 日 😀 ? C} + prefix seeds with non-ASCII payloads + random; non-trivial = multi-byte character and >= 2 components", design_ref="§5 C14")
+P("C14", "proof", "Lean 4 theorems (UTF-8 validity is preserved by every byte-level operation and mutation history) + UTF-8 family vs byte family transcripts (delegation) + model/code correspondence",
+  "Spec/Utf8.lean defines well-formed UTF-8 (RFC 3629; validB_iff ties the executable check to the inductive "
+  "definition, and the check is compared with core::str::from_utf8 on every run). Proved in Lean, both encodings, for "
+  "every valid input: the Windows prefix is cut on a character boundary (prefix_split_valid, through all six prefix "
+  "alternatives), every token and component text is valid (new_valid, comps_bytes_valid), the remaining text after ANY "
+  "interleaving of front/back steps is valid (remaining_valid), parent / file_name / file_stem / extension / "
+  "strip_prefix hand out valid strings, and push (incl. the verbatim rebuild), push_checked, pop, set_file_name, "
+  "set_extension, normalize and with_encoding return valid buffers — hence validity after every finite mutation "
+  "history with valid arguments (mutations_valid). This is exactly the invariant the from_utf8_unchecked / "
+  "as_mut_vec code of the UTF-8 wrappers needs.",
+  "What no theorem carries: that each of the ~40 UTF-8 wrapper methods calls the right byte method and adds nothing "
+  "of its own (delegation), and that nothing panics. That is decided by the correspondence: every UTF-8 operation is "
+  "run next to its byte twin (identical transcripts, every &str re-validated with from_utf8, catch_unwind), on "
+  "strings with 2-, 3- and 4-byte characters next to every separator / dot / colon, plus mutation sequences; "
+  "conversions between the families succeed iff valid. Model=code by differential testing.",
+  theorems=["TP.Utf8.validB_iff", "TP.Utf8.Valid.append", "TP.Utf8.Valid.split_ascii", "TP.C14.prefix_split_valid",
+            "TP.C14.new_valid", "TP.C14.comps_bytes_valid", "TP.C14.remaining_valid", "TP.C14.parent_valid",
+            "TP.C14.file_name_valid", "TP.C14.stem_ext_valid", "TP.C14.strip_prefix_valid", "TP.C14.push_valid",
+            "TP.C14.push_checked_valid", "TP.C14.pop_valid", "TP.C14.set_file_name_valid", "TP.C14.set_extension_valid",
+            "TP.C14.normalize_valid", "TP.C14.with_encoding_valid", "TP.C14.mutations_valid"],
+  modules=["TypedPathVerif.Lemmas.Utf8"],
+  rule="strings over {/ \\ . : a é 日 😀 ? C} + prefix seeds with non-ASCII payloads + random; non-trivial = multi-byte character and >= 2 components", design_ref="§5 C14")
 
 P("C15", "translation_validation", "typed/platform wrappers vs wrapped concrete types (transcripts) + model differential",
   "Every wrapper method is run on both variants and compared with the same method on the wrapped concrete type; the "
